@@ -57,7 +57,7 @@ Definition sx_nats (x : sx) : option (list nat) :=
 (* printing *)
 Definition p_nat (n : nat) : sx := SZ (Z.of_nat n).
 Definition p_exn (e : exn) : sx :=
-  match e with EAssert => sx_w "AssertionError" | EKey => sx_w "KeyError" | ENotFound => sx_w "FileNotFoundError" | EMemory => sx_w "MemoryError" end.
+  match e with EAssert => sx_w "AssertionError" | EKey => sx_w "KeyError" | ENotFound => sx_w "FileNotFoundError" | EMemory => sx_w "MemoryError" | EExists => sx_w "FileExistsError" end.
 Definition p_outcome (o : option outcome) : sx :=
   match o with
   | None => sx_w "none"
@@ -93,7 +93,7 @@ Definition p_event (e : event) : sx :=
 
 Definition sx_exn (w : list Z) : option exn :=
   if is_tag "AssertionError" w then Some EAssert else if is_tag "KeyError" w then Some EKey
-  else if is_tag "FileNotFoundError" w then Some ENotFound else if is_tag "MemoryError" w then Some EMemory else None.
+  else if is_tag "FileNotFoundError" w then Some ENotFound else if is_tag "MemoryError" w then Some EMemory else if is_tag "FileExistsError" w then Some EExists else None.
 
 Definition sx_result (x : sx) : option result :=
   match x with
@@ -139,7 +139,7 @@ Definition dispatch (x : sx) : sx :=
             let '(s, steps, stuck) := run_trace gen_flags (cfg_max cf) (init cf) sc 0 [] in
             SL [sx_w "ok"; SL (sx_w "steps" :: steps); p_en gen_flags (cfg_max cf) s;
                 SL (sx_w "hist" :: map p_event (rev (g_hist s)));
-                SL [sx_w "lin"; sx_bool (linearizable (cfg_disk cf) (rev (g_hist s)) (disk (g_core s)))];
+                SL [sx_w "lin"; sx_bool (linearizable (real_files (cfg_disk cf)) (rev (g_hist s)) (real_files (disk (g_core s))))];
                 SL [sx_w "agree"; sx_bool (final_agree s)];
                 SL [sx_w "k"; SZ (g_k s)];
                 SL [sx_w "quiescent"; sx_bool (quiescent s)];
@@ -174,7 +174,7 @@ Definition dispatch (x : sx) : sx :=
   | SL [SS t; SS n] =>
       if is_tag "universe" t then
         let pu := fun U => SL (map (fun cf => SL [p_cfg cf; sx_bool (racy cf)]) U) in
-        if is_tag "u21" n then pu U21 else if is_tag "u22" n then pu U22 else if is_tag "u31" n then pu U31 else if is_tag "u2112" n then pu U2112 else if is_tag "u31e" n then pu U31e else sx_err "universe"
+        if is_tag "u21" n then pu U21 else if is_tag "u22" n then pu U22 else if is_tag "u31" n then pu U31 else if is_tag "u2112" n then pu U2112 else if is_tag "u31e" n then pu U31e else if is_tag "u21d" n then pu U21d else sx_err "universe"
       else if is_tag "witness" t then
         if is_tag "k1torn" n then SL [sx_w "w"; p_cfg cfg_get_upd; SL (map p_nat sch_k1_torn)]
         else if is_tag "k1acct" n then SL [sx_w "w"; p_cfg cfg_get_upd; SL (map p_nat sch_k1_acct)]
